@@ -257,6 +257,15 @@ func c18Run(c *mon.Ctx, idx int) {
 		l2 := append([]optSpec{dup}, set...)
 		same("last-wins", l2)
 	}
+	// a budget below the parse's step count must refuse the expression - also
+	// when the same text was created successfully a moment ago in this process
+	if steps > 2 {
+		tiny := append(append([]optSpec(nil), set...), optSpec{kind: "max", max: 1 + uint64(r.Intn(int(steps)-2))})
+		if _, ok, _ := c18Eval(text, node, tiny); ok {
+			c.Violation("C18 insufficient-budget-accepted", "WithMaxExpressions below the parse's step count did not refuse the expression (after the same text had been created successfully)", map[string]any{"expression": clip(text, 300), "options": describeList(tiny), "steps": steps})
+		}
+		c.Count("rel:insufficient-budget-refused")
+	}
 	// 3. neutral settings are no-ops
 	has := map[string]bool{}
 	for _, o := range set {
@@ -335,7 +344,7 @@ func init() {
 		NumCases:    func(tier string) int { return tierN(tier, 5000, 250000) },
 		Run:         c18Run,
 		Required: func(tier string) []string {
-			return []string{"rel:permutation", "rel:last-wins", "rel:neutral-identity-hook", "rel:neutral-nil-hook", "rel:neutral-tag-bexpr", "rel:neutral-budget-0", "rel:neutral-budget-above-steps", "rel:neutral-budget-equal-steps",
+			return []string{"rel:permutation", "rel:last-wins", "rel:insufficient-budget-refused", "rel:neutral-identity-hook", "rel:neutral-nil-hook", "rel:neutral-tag-bexpr", "rel:neutral-budget-0", "rel:neutral-budget-above-steps", "rel:neutral-budget-equal-steps",
 				"rel:neutral-unknown-when-all-resolve", "outcome:T", "outcome:F", "outcome:E", "hook_changed_outcome:props.hookUnwrap", "hook_changed_outcome:props.hookConst", "tag_changed_outcome", "unknown_changed_outcome",
 				"options_in_list:0", "options_in_list:3", "options_in_list:4"}
 		},
